@@ -43,8 +43,9 @@ def rand_scalar(rng):
 class Track:
     """what the generator believes the current table looks like (only used to
     produce mostly valid operations; the verdicts never depend on it)"""
-    def __init__(self, cols, n, index, scalars):
+    def __init__(self, cols, n, index, scalars, numscal=()):
         self.cols, self.n, self.index, self.scalars = list(cols), n, index, set(scalars)
+        self.numscal = set(numscal)      # scalar entries known to be numbers (usable in expressions)
 
     def names(self):
         return [c for c, _ in self.cols]
@@ -75,15 +76,34 @@ def gen_expr(rng, tr):
     if not num:
         return None
     x, y = rng.choice(num), rng.choice(num)
+    ns = sorted(k for k in tr.numscal & tr.scalars if k.isidentifier())
+    if ns and rng.random() < 0.3:
+        y = rng.choice(ns)          # a numeric scalar entry of the table inside the expression
     text = rng.choice(EXPRS).format(x=x, y=y)
     kinds = dict(tr.cols)
-    return text, ("float" if "float" in (kinds[x], kinds[y]) else "int")
+    return text, ("float" if "float" in (kinds[x], kinds.get(y, "float")) else "int")
 
 
-def gen_case(rng, maxops=6):
+PREFERRED = ["sign", "power", "mod", "exp", "log", "sqrt", "abs", "absolute", "square", "np", "sin", "cos", "add",
+             "maximum", "angle", "floor", "conj", "real", "divide", "negative", "positive", "fabs", "hypot"]
+
+
+def gen_case(rng, maxops=6, mathnames=()):
+    # a quarter of the cases name their columns and scalars like entries of the
+    # table's math namespace (numpy ufuncs and `np`; list read from xdeps.table at
+    # run time) and evaluate many expressions over them
+    collide = bool(mathnames) and rng.random() < 0.25
+    if collide:
+        pref = [m for m in PREFERRED if m in mathnames] or list(mathnames)
+        cand = list(dict.fromkeys(rng.sample(pref, min(5, len(pref))) + rng.sample(list(mathnames), min(4, len(mathnames)))))
+        rng.shuffle(cand)
+        cand = (cand + POOL)[:7]
+        pool, snames = cand[:5], cand[5:7]
+    else:
+        pool, snames = POOL, ["s1", "s2"]
     n = rng.randint(0, 8)
-    ncols = rng.randint(0, 4)
-    cols = [("name", "str")] + [(POOL[i], rng.choice(KINDS)) for i in range(ncols)]
+    ncols = rng.randint(2, 4) if collide else rng.randint(0, 4)
+    cols = [("name", "str")] + [(pool[i], rng.choice(["float", "int", "float", "int", "str", "vec2"] if collide else KINDS)) for i in range(ncols)]
     data = [[c, k, rand_vals(rng, k, n)] for c, k in cols]
     if n:
         data[0][2] = [rng.choice(["ip", "mq", "mb", "d"]) + str(rng.randint(1, 3)) for _ in range(n)]
@@ -91,10 +111,13 @@ def gen_case(rng, maxops=6):
     # a fifth of the cases concentrate on one source table: selections, assignments
     # (mostly to its scalar entries: scalar -> column promotion and back) and deletions
     focus = rng.random() < 0.2
-    for s in ["s1", "s2"]:
-        if focus or rng.random() < 0.5:
+    numscal = set()
+    for s in snames:
+        if focus or collide or rng.random() < 0.5:
             scal.append(s)
             data.append([s, "scalar", rand_scalar(rng)])
+            if not isinstance(data[-1][2], str):
+                numscal.add(s)
     if rng.random() < 0.15:
         data.append(["w", rng.choice(["float", "int"]), rand_vals(rng, "int", n + 2)])   # array that is not a column
         data[-1][2] = [float(v).hex() for v in data[-1][2]] if data[-1][1] == "float" else data[-1][2]
@@ -106,7 +129,7 @@ def gen_case(rng, maxops=6):
     valid = True
     if bad < 0.03 and ncols and n:
         for row in data:
-            if row[0] == POOL[0]:
+            if row[0] == pool[0]:
                 row[2] = row[2][:-1] if rng.random() < 0.5 else row[2] + row[2][:1]
         valid = False
     elif bad < 0.05:
@@ -120,7 +143,7 @@ def gen_case(rng, maxops=6):
     case = {"data": data, "col_names": col_names, "index": index, "ops": []}
     if not valid:
         return case
-    tr = Track(cols, n, "name", scal)
+    tr = Track(cols, n, "name", scal, numscal)
     # how often a derivation is made from the current table while that table
     # stays current (selections and assignments interleaved on one source)
     stay_p = 1.0 if focus else rng.choice([0.0, 0.4, 0.7, 1.0])
@@ -129,7 +152,9 @@ def gen_case(rng, maxops=6):
         if focus and rng.random() < 0.85:
             k = rng.choice([rng.uniform(0, 0.38), rng.uniform(0.81, 0.95)])
         op = None
-        saved = Track(tr.cols, tr.n, tr.index, tr.scalars)
+        saved = Track(tr.cols, tr.n, tr.index, tr.scalars, tr.numscal)
+        if collide and rng.random() < 0.45:
+            k = 0.97      # an expression
         if k < 0.2:
             s, m = gen_sel(rng, tr.n)
             op = ["rows", s]
@@ -187,7 +212,7 @@ def gen_case(rng, maxops=6):
             # assignment: the key is drawn from one pool whatever it currently is
             # (a column, a scalar entry, a non-column array, or absent)
             names = tr.names()
-            key = rng.choice(names + sorted(tr.scalars) * (4 if focus else 2) + POOL + ["s1", "s2"])
+            key = rng.choice(names + sorted(tr.scalars) * (4 if focus else 2) + pool + snames)
             kinds = dict(tr.cols)
             kind = kinds.get(key, rng.choice(KINDS))
             y = rng.random()
@@ -206,10 +231,10 @@ def gen_case(rng, maxops=6):
                     tr.cols.append((key, kind)); tr.scalars.discard(key)
                 elif y < 0.7:    # an array of another length: stays / becomes a non-column entry
                     op = ["set", key, ["arr", kind, rand_vals(rng, kind, tr.n + 1)]]
-                    tr.scalars.add(key)
+                    tr.scalars.add(key); tr.numscal.discard(key)
                 else:
                     op = ["set", key, ["scalar", rng.choice([rng.randint(-5, 5), round(rng.uniform(-3, 3), 3)])]]
-                    tr.scalars.add(key)
+                    tr.scalars.add(key); tr.numscal.add(key)
         elif k < 0.95:
             cand = [c for c in tr.names() if c != tr.index] + sorted(tr.scalars) + (["zz"] if rng.random() < 0.1 else [])
             if cand:
@@ -220,7 +245,10 @@ def gen_case(rng, maxops=6):
         else:
             e = gen_expr(rng, tr)
             if e and e[0] not in tr.names():
-                op = ["expr", e[0], rng.choice(["item", "cols"])]
+                form = rng.choice(["item", "cols", "cell"])
+                op = ["expr", e[0], form] + ([rng.randint(-tr.n, tr.n - 1)] if form == "cell" and tr.n else [])
+                if form == "cell" and not tr.n:
+                    op = ["expr", e[0], "item"]
         if op and op[0] in DERIVE and rng.random() < stay_p:
             op = ["stay", op]
             tr = saved
@@ -415,9 +443,13 @@ def run(ctx):
                 "(existing column, scalar entry -> column promotion, new column, new scalar, wrong-length array), del, t['expr'] / t.cols['expr']; "
                 "in 3/4 of the chains derivations are, with probability 0.4/0.7/1, made from a table that stays current, so that "
                 "selections and assignments interleave on one source table; "
-                "non-trivial = at least two successful derivations of different kinds in one chain; distinct by (table, chain)")
+                "a quarter of the tables name columns and scalars like entries of the math namespace of xdeps.table (numpy ufuncs, np; "
+                "list read at run time) and evaluate t[expr], t[expr,row], t.cols[expr] over them (scalars included): the table's entry "
+                "must win; non-trivial = at least two successful derivations of different kinds in one chain; distinct by (table, chain)")
     proof_ok = vlib.standard_proof_part(ctx, "props/C14.v", allowed_axioms=(), extra_targets=["run/RunTableRect.vo"])
-    cases = [gen_case(ctx.rng) for _ in range(n)]
+    # the names of the table's math namespace, by introspection of xdeps.table in the build under test
+    mathnames = tuple(vlib.run_impl(RUNNER, {"meta": "gblmath"})["gblmath"])
+    cases = [gen_case(ctx.rng, mathnames=mathnames) for _ in range(n)]
     C, O, F = run_impl_cases(cases)
     mism = model_mismatches(ctx, cases, C, O, "c")
     dist, errs, lens = {}, {}, {}
@@ -473,7 +505,7 @@ def run(ctx):
         if mism:
             i = mism[0]
             what.append(f"correspondence model/TableRect.v vs xdeps.table.Table broke on {len(mism)} cases, first: {json.dumps(cases[i])} ctor={json.dumps(C[i])} impl={json.dumps(O[i])}")
-        extra = [gen_case(ctx.rng, maxops=8) for _ in range(6000)]
+        extra = [gen_case(ctx.rng, maxops=8, mathnames=mathnames) for _ in range(6000)]
         C2, O2, F2 = run_impl_cases(extra)
         b2 = first_failure(extra, F2)
         if b2 is not None:
